@@ -168,6 +168,8 @@ fn main() {
                         .with_order(entry.order as _);
                 }
 
+                // Free only the traced part, which might be in the middle of the allocation
+                let frame = FrameId(frame.0 + (pfn - a_pfn));
                 if let Err(e) = llfree.put(frame, flags) {
                     error!("Free failed pfn={a_pfn} order={} error={e:?}", flags.order);
                 }
